@@ -42,6 +42,12 @@ Theorem C06_delete_keeps_siblings : forall f m g c, f g = false ->
   (In g (cget c (ms_clients (drop_groups f m))) <-> In g (cget c (ms_clients m))).
 Proof. exact drop_frame. Qed.
 
+(* ... and no membership is recorded twice on either side, so the numbers GetMe / GetClient and GetConsumerGroup report are the
+   numbers of distinct memberships *)
+Theorem C06_memberships_once : forall ops,
+  (forall c, NoDup (cget c (ms_clients (mrun ops)))) /\ (forall g ms, gget g (ms_groups (mrun ops)) = Some ms -> NoDup ms).
+Proof. exact nodup_always. Qed.
+
 Example C06_memberships_nonvacuous :
   let ops := [MCreateGroup (1, 1, 1); MCreateGroup (1, 2, 1); MCreateGroup (2, 1, 1); MConnect 7; MConnect 8; MJoin 7 (1, 1, 1); MJoin 7 (1, 2, 1);
               MJoin 8 (1, 1, 1); MJoin 8 (2, 1, 1); MJoin 7 (1, 1, 1); MDeleteTopic 1 2; MLeave 8 (1, 1, 1); MDropClient 7] in
@@ -58,3 +64,4 @@ Print Assumptions C06_memberships_coherent.
 Print Assumptions C06_delete_removes_nested.
 Print Assumptions C06_delete_keeps_siblings.
 Print Assumptions C06_memberships_nonvacuous.
+Print Assumptions C06_memberships_once.
